@@ -48,16 +48,13 @@ class InterpolatedCurveBase(FunctionCurveBase, abc.ABC):
         """Returns the length of this curve by summing distance between
         points. The 'count' parameter is ignored as the original points are taken."""
         param_from, param_to = self._get_params(param_from, param_to)
+        lower, upper = min(param_from, param_to), max(param_from, param_to)
 
-        index_from = int(param_from * self.segments) + 1
-        index_to = int(param_to * self.segments)
+        # break points are the interpolation points that lie between the given parameters;
+        # their parameters are spaced by chord length (if equalized), not by index
+        knots = [t for t in self.function.params if lower < t < upper]
 
-        if index_from < index_to:
-            indexes = list(range(index_from, index_to + 1))
-        else:
-            indexes = []
-
-        params = [param_from, *[i / self.segments for i in indexes[:-1]], param_to]
+        params = [lower, *knots, upper]
         return f.polyline_length(np.array([self.function(t) for t in params]))
 
 
